@@ -185,7 +185,7 @@ func FlatMapI[T, R any](project func(item T, index int64) Observable[R]) func(Ob
 // Play: https://go.dev/play/p/BCv4krqHEhI
 func FlatMapIWithContext[T, R any](project func(ctx context.Context, item T, index int64) Observable[R]) func(Observable[T]) Observable[R] {
 	return func(source Observable[T]) Observable[R] {
-		return ConcatAll[R]()(
+		return MergeAll[R]()(
 			NewUnsafeObservableWithContext(func(subscriberCtx context.Context, destination Observer[Observable[R]]) Teardown {
 				i := int64(0)
 
